@@ -698,12 +698,14 @@ def mapping_stream(ctx, n):
         if j % 3 == 0:
             scn, pool = directed_mapping_scenario(rng)
         else:
-            g = gen.Gen(rng, with_presets=False, with_map=False, with_effects=False, with_failing=(j % 4 == 1))
+            # (Template NODES - incl. string defaults - cannot be evaluated under a non-dict Mapping on the unchanged library:
+            #  confectioner.mix drops the mapping; an evaluated chooser holding one would fail only under the mapping)
+            g = gen.Gen(rng, with_presets=False, with_map=False, with_effects=False, with_templates=False, with_failing=(j % 4 == 1))
             exprs = []
             while len(exprs) < 2:
                 e = g.expr(3, root=True)
                 # (cached(...) fingerprints the option values it depends on: a section that is not a dict cannot be serialised - TypeError)
-                if not any(x[0] == "cached" for x in base.nodes(dict(ftable=g.ftable, env={}, exprs=[e]), e)):
+                if not any(x[0] in ("cached", "template") for x in base.nodes(dict(ftable=g.ftable, env={}, exprs=[e]), e)):
                     exprs.append(e)
             scn = dict(ftable=dict(g.ftable), env={}, exprs=exprs, ops=[])
             pool = g.dict_pool()
